@@ -1,0 +1,452 @@
+//go:build verif
+
+package fp
+
+// Contracts for the methods of Future (future.go) — property C06 — checked by /verif/govc.
+// Comment-only file.
+//
+// Method (as in future/verif_contracts.go): the real promise code runs sequentially; a task given to
+// the default executor (`go`) runs later, in FIFO order (verifspec.RunSpawned).  Every source is a
+// promise of the scenario completed with a symbolic Try; user functions returning futures are
+// closures that apply a symbolic function (for the call trace) and hand out the future of a promise
+// of the scenario.  For each order of "source completed" / "method called": the derived future is not
+// complete (and no user function called) before the source it depends on, complete once the sources
+// are and the pending tasks ran, with the value of the same expression over Try; every callback /
+// user function is called exactly as often as that expression calls it; a second completion of a
+// source or of the derived future is refused and changes nothing.
+
+//@ ghost
+//@ func futSettled[T any](f Future[T]) bool {
+//@ 	verifspec.RunSpawned()
+//@ 	return f.IsCompleted() && verifspec.Spawned() == 0
+//@ }
+//@ func futFailed[U, T any](t Try[T]) Try[U] {
+//@ 	return Failure[U](t.Failed().Get())
+//@ }
+//@ // futDecided: r is complete with want, no task is pending, and completing r again is refused and changes nothing
+//@ func futDecided[U any](r Future[U], want Try[U], again Try[U]) bool {
+//@ 	if !r.IsCompleted() || verifspec.Spawned() != 0 {
+//@ 		return false
+//@ 	}
+//@ 	if !verifspec.Eq(verifspec.W(r.Value()), verifspec.W(want)) {
+//@ 		return false
+//@ 	}
+//@ 	n := verifspec.TraceLen()
+//@ 	if Promise[U](r).Complete(again) {
+//@ 		return false
+//@ 	}
+//@ 	verifspec.RunSpawned()
+//@ 	return verifspec.Eq(verifspec.W(r.Value()), verifspec.W(want)) && verifspec.TraceLen() == n && verifspec.Spawned() == 0
+//@ }
+//@ // futOver1: one source.  early: the source is complete before the method is called.
+//@ func futOver1[T, U any](t Try[T], early bool, build func(Future[T]) Future[U]) (Future[U], bool) {
+//@ 	p := NewPromise[T]()
+//@ 	if early && !p.Complete(t) {
+//@ 		return Future[U]{}, false
+//@ 	}
+//@ 	r := build(p.Future())
+//@ 	verifspec.RunSpawned()
+//@ 	if !early {
+//@ 		if r.IsCompleted() || verifspec.TraceLen() != 0 {
+//@ 			return r, false // completed, or a user function called, before the source is complete
+//@ 		}
+//@ 		if !p.Complete(t) {
+//@ 			return r, false
+//@ 		}
+//@ 	}
+//@ 	if !futSettled(r) {
+//@ 		return r, false
+//@ 	}
+//@ 	return r, !p.Failure(ErrOptionEmpty) && verifspec.Spawned() == 0
+//@ }
+//@ // futThenInner: a source a and a user function (called with the result of a when needed is true) that returns the
+//@ // future of the promise q.  order 0: a q call | 1: q call a | 2: call a q
+//@ func futThenInner[T, U any](t Try[T], tu Try[U], needed bool, order int, build func(a Future[T], inner Future[U]) Future[U]) (Future[U], bool) {
+//@ 	p := NewPromise[T]()
+//@ 	q := NewPromise[U]()
+//@ 	if order == 0 {
+//@ 		p.Complete(t)
+//@ 	}
+//@ 	if order == 0 || order == 1 {
+//@ 		q.Complete(tu)
+//@ 	}
+//@ 	r := build(p.Future(), q.Future())
+//@ 	verifspec.RunSpawned()
+//@ 	if order != 0 {
+//@ 		if r.IsCompleted() || verifspec.TraceLen() != 0 {
+//@ 			return r, false
+//@ 		}
+//@ 		p.Complete(t)
+//@ 		verifspec.RunSpawned()
+//@ 	}
+//@ 	if order == 2 {
+//@ 		if needed && r.IsCompleted() {
+//@ 			return r, false // the inner future is not complete yet
+//@ 		}
+//@ 		if !needed && !(r.IsCompleted() && verifspec.Spawned() == 0) {
+//@ 			return r, false // decided by a alone: must not wait for the inner future
+//@ 		}
+//@ 		q.Complete(tu)
+//@ 	}
+//@ 	if !futSettled(r) {
+//@ 		return r, false
+//@ 	}
+//@ 	return r, !p.Failure(ErrOptionEmpty) && !q.Failure(ErrOptionEmpty) && verifspec.Spawned() == 0
+//@ }
+//@
+//@ // IsCompleted / Value: false until the promise is completed, then the result, for ever.
+//@ func futValueScenario[T any](t Try[T], other Try[T]) bool {
+//@ 	p := NewPromise[T]()
+//@ 	f := p.Future()
+//@ 	if f.IsCompleted() {
+//@ 		return false
+//@ 	}
+//@ 	if !p.Complete(t) || !f.IsCompleted() || !verifspec.Eq(verifspec.W(f.Value()), verifspec.W(t)) {
+//@ 		return false
+//@ 	}
+//@ 	if p.Complete(other) {
+//@ 		return false
+//@ 	}
+//@ 	return f.IsCompleted() && verifspec.Eq(verifspec.W(f.Value()), verifspec.W(t)) && verifspec.Spawned() == 0
+//@ }
+//@ // OnComplete: two callbacks, one registered before and one after the completion (late: both before):
+//@ // each runs exactly once, with the result, and only as a task of the executor.
+//@ func futOnCompleteScenario[T any](t Try[T], cb1 func(Try[T]), cb2 func(Try[T]), late bool, other Try[T]) bool {
+//@ 	p := NewPromise[T]()
+//@ 	f := p.Future()
+//@ 	f.OnComplete(cb1)
+//@ 	if late {
+//@ 		f.OnComplete(cb2)
+//@ 	}
+//@ 	verifspec.RunSpawned()
+//@ 	if verifspec.TraceLen() != 0 {
+//@ 		return false // called before the completion
+//@ 	}
+//@ 	if !p.Complete(t) || verifspec.TraceLen() != 0 {
+//@ 		return false // callbacks are handed to the executor, not run by the completing thread
+//@ 	}
+//@ 	if !late {
+//@ 		verifspec.RunSpawned()
+//@ 		if !verifspec.CalledOnce(cb1, t) {
+//@ 			return false
+//@ 		}
+//@ 		f.OnComplete(cb2)
+//@ 		if verifspec.TraceLen() != 1 {
+//@ 			return false
+//@ 		}
+//@ 	}
+//@ 	verifspec.RunSpawned()
+//@ 	if !(verifspec.TraceLen() == 2 && verifspec.TraceCall(0, cb1, t) && verifspec.TraceCall(1, cb2, t)) {
+//@ 		return false
+//@ 	}
+//@ 	if p.Complete(other) {
+//@ 		return false
+//@ 	}
+//@ 	verifspec.RunSpawned()
+//@ 	return verifspec.TraceLen() == 2 && verifspec.Spawned() == 0
+//@ }
+//@ // OnSuccess / Foreach / OnFailure: filters.  kind 0: OnSuccess | 1: Foreach | 2: OnFailure
+//@ func futFilterScenario[T any](t Try[T], cs func(T), cf func(error), kind int, early bool, other Try[T]) bool {
+//@ 	p := NewPromise[T]()
+//@ 	f := p.Future()
+//@ 	if early {
+//@ 		p.Complete(t)
+//@ 	}
+//@ 	if kind == 0 {
+//@ 		f.OnSuccess(cs)
+//@ 	}
+//@ 	if kind == 1 {
+//@ 		f.Foreach(cs)
+//@ 	}
+//@ 	if kind == 2 {
+//@ 		f.OnFailure(cf)
+//@ 	}
+//@ 	if verifspec.TraceLen() != 0 {
+//@ 		return false
+//@ 	}
+//@ 	if !early {
+//@ 		verifspec.RunSpawned()
+//@ 		if verifspec.TraceLen() != 0 {
+//@ 			return false
+//@ 		}
+//@ 		p.Complete(t)
+//@ 	}
+//@ 	verifspec.RunSpawned()
+//@ 	if p.Complete(other) {
+//@ 		return false
+//@ 	}
+//@ 	verifspec.RunSpawned()
+//@ 	if verifspec.Spawned() != 0 {
+//@ 		return false
+//@ 	}
+//@ 	if kind == 2 {
+//@ 		if t.IsSuccess() {
+//@ 			return verifspec.TraceLen() == 0
+//@ 		}
+//@ 		return verifspec.CalledOnce(cf, t.Failed().Get())
+//@ 	}
+//@ 	if t.IsSuccess() {
+//@ 		return verifspec.CalledOnce(cs, t.Get())
+//@ 	}
+//@ 	return verifspec.TraceLen() == 0
+//@ }
+//@ func futMapScenario[T any](t Try[T], mf func(T) T, early bool, again Try[T]) bool {
+//@ 	r, ok := futOver1(t, early, func(a Future[T]) Future[T] { return a.Map(mf) })
+//@ 	if !ok {
+//@ 		return false
+//@ 	}
+//@ 	if t.IsSuccess() {
+//@ 		once := verifspec.CalledOnce(mf, t.Get()) // before the specification below applies mf itself
+//@ 		return once && futDecided(r, Success(mf(t.Get())), again)
+//@ 	}
+//@ 	return verifspec.TraceLen() == 0 && futDecided(r, futFailed[T](t), again)
+//@ }
+//@ func futFlatMapScenario[T any](t Try[T], tu Try[T], k func(T) int, order int, again Try[T]) bool {
+//@ 	r, ok := futThenInner(t, tu, t.IsSuccess(), order, func(a Future[T], inner Future[T]) Future[T] {
+//@ 		return a.FlatMap(func(v T) Future[T] { k(v); return inner })
+//@ 	})
+//@ 	if !ok {
+//@ 		return false
+//@ 	}
+//@ 	if t.IsSuccess() {
+//@ 		return verifspec.CalledOnce(k, t.Get()) && futDecided(r, tu, again)
+//@ 	}
+//@ 	return verifspec.TraceLen() == 0 && futDecided(r, futFailed[T](t), again)
+//@ }
+//@ func futRecoverScenario[T any](t Try[T], f func(error) T, early bool, again Try[T]) bool {
+//@ 	r, ok := futOver1(t, early, func(a Future[T]) Future[T] { return a.Recover(f) })
+//@ 	if !ok {
+//@ 		return false
+//@ 	}
+//@ 	if t.IsSuccess() {
+//@ 		return verifspec.TraceLen() == 0 && futDecided(r, t, again)
+//@ 	}
+//@ 	once := verifspec.CalledOnce(f, t.Failed().Get())
+//@ 	return once && futDecided(r, Success(f(t.Failed().Get())), again)
+//@ }
+//@ func futRecoverCaseScenario[T any](t Try[T], d func(error) bool, th func(error) T, early bool, again Try[T]) bool {
+//@ 	r, ok := futOver1(t, early, func(a Future[T]) Future[T] { return a.RecoverCase(d, th) })
+//@ 	if !ok {
+//@ 		return false
+//@ 	}
+//@ 	if t.IsSuccess() {
+//@ 		return verifspec.TraceLen() == 0 && futDecided(r, t, again)
+//@ 	}
+//@ 	e := t.Failed().Get()
+//@ 	n := verifspec.TraceLen()
+//@ 	if !verifspec.TraceCall(0, d, e) {
+//@ 		return false
+//@ 	}
+//@ 	if d(e) {
+//@ 		tr := n == 2 && verifspec.TraceCall(1, th, e)
+//@ 		return tr && futDecided(r, Success(th(e)), again)
+//@ 	}
+//@ 	return n == 1 && futDecided(r, t, again)
+//@ }
+//@ func futRecoverWithScenario[T any](t Try[T], tu Try[T], k func(error) int, order int, again Try[T]) bool {
+//@ 	r, ok := futThenInner(t, tu, !t.IsSuccess(), order, func(a Future[T], inner Future[T]) Future[T] {
+//@ 		return a.RecoverWith(func(e error) Future[T] { k(e); return inner })
+//@ 	})
+//@ 	if !ok {
+//@ 		return false
+//@ 	}
+//@ 	if t.IsSuccess() {
+//@ 		return verifspec.TraceLen() == 0 && futDecided(r, t, again)
+//@ 	}
+//@ 	return verifspec.CalledOnce(k, t.Failed().Get()) && futDecided(r, tu, again)
+//@ }
+//@ // RecoverCaseWith: the inner future is needed only for a failure at which d holds; d is a symbolic predicate, so the
+//@ // scenario is driven without knowing it and d(e) is applied by the specification at the end (trace index n).
+//@ func futRecoverCaseWithScenario[T any](t Try[T], tu Try[T], d func(error) bool, k func(error) int, order int, again Try[T]) bool {
+//@ 	p := NewPromise[T]()
+//@ 	q := NewPromise[T]()
+//@ 	if order == 0 {
+//@ 		p.Complete(t)
+//@ 	}
+//@ 	if order == 0 || order == 1 {
+//@ 		q.Complete(tu)
+//@ 	}
+//@ 	r := p.Future().RecoverCaseWith(d, func(e error) Future[T] { k(e); return q.Future() })
+//@ 	verifspec.RunSpawned()
+//@ 	if order != 0 {
+//@ 		if r.IsCompleted() || verifspec.TraceLen() != 0 {
+//@ 			return false
+//@ 		}
+//@ 		p.Complete(t)
+//@ 		verifspec.RunSpawned()
+//@ 	}
+//@ 	done1 := r.IsCompleted() && verifspec.Spawned() == 0
+//@ 	if order == 2 {
+//@ 		q.Complete(tu)
+//@ 	}
+//@ 	if !futSettled(r) || p.Failure(ErrOptionEmpty) || q.Failure(ErrOptionEmpty) {
+//@ 		return false
+//@ 	}
+//@ 	n := verifspec.TraceLen()
+//@ 	if t.IsSuccess() {
+//@ 		return n == 0 && done1 && futDecided(r, t, again)
+//@ 	}
+//@ 	e := t.Failed().Get()
+//@ 	if !verifspec.TraceCall(0, d, e) {
+//@ 		return false
+//@ 	}
+//@ 	if d(e) {
+//@ 		if order == 2 && done1 {
+//@ 			return false // completed before the inner future
+//@ 		}
+//@ 		return n == 2 && verifspec.TraceCall(1, k, e) && futDecided(r, tu, again)
+//@ 	}
+//@ 	return n == 1 && done1 && futDecided(r, t, again)
+//@ }
+//@ // Or: the supplier applies s(7) and hands out the future of q; it is called only when the receiver has failed.
+//@ func futOrScenario[T any](t Try[T], tu Try[T], s func(int) int, order int, again Try[T]) bool {
+//@ 	r, ok := futThenInner(t, tu, !t.IsSuccess(), order, func(a Future[T], inner Future[T]) Future[T] {
+//@ 		return a.Or(func() Future[T] { s(7); return inner })
+//@ 	})
+//@ 	if !ok {
+//@ 		return false
+//@ 	}
+//@ 	if t.IsSuccess() {
+//@ 		return verifspec.TraceLen() == 0 && futDecided(r, t, again)
+//@ 	}
+//@ 	return verifspec.CalledOnce(s, 7) && futDecided(r, tu, again)
+//@ }
+//@ // OrFuture: order 0: a b call | 1: b call a | 2: a call b | 3: call a b | 4: call b a
+//@ func futOrFutureScenario[T any](ta Try[T], tb Try[T], order int, again Try[T]) bool {
+//@ 	p := NewPromise[T]()
+//@ 	q := NewPromise[T]()
+//@ 	if order == 0 || order == 2 {
+//@ 		p.Complete(ta)
+//@ 	}
+//@ 	if order == 0 || order == 1 {
+//@ 		q.Complete(tb)
+//@ 	}
+//@ 	r := p.Future().OrFuture(q.Future())
+//@ 	verifspec.RunSpawned()
+//@ 	if order == 4 {
+//@ 		if r.IsCompleted() {
+//@ 			return false
+//@ 		}
+//@ 		q.Complete(tb)
+//@ 		verifspec.RunSpawned()
+//@ 	}
+//@ 	if order == 1 || order == 3 || order == 4 {
+//@ 		if r.IsCompleted() {
+//@ 			return false // the receiver is not complete: nothing is decided, whatever the alternative is
+//@ 		}
+//@ 		p.Complete(ta)
+//@ 		verifspec.RunSpawned()
+//@ 	}
+//@ 	if order == 2 || order == 3 {
+//@ 		if !ta.IsSuccess() && r.IsCompleted() {
+//@ 			return false // the alternative is needed and not complete
+//@ 		}
+//@ 		if ta.IsSuccess() && !(r.IsCompleted() && verifspec.Spawned() == 0) {
+//@ 			return false // decided by the success of the receiver: must not wait for the alternative
+//@ 		}
+//@ 		q.Complete(tb)
+//@ 	}
+//@ 	if !futSettled(r) || p.Failure(ErrOptionEmpty) || q.Failure(ErrOptionEmpty) {
+//@ 		return false
+//@ 	}
+//@ 	if ta.IsSuccess() {
+//@ 		return futDecided(r, ta, again)
+//@ 	}
+//@ 	return futDecided(r, tb, again)
+//@ }
+//@ func futFailedScenario[T any](t Try[T], early bool, again Try[error]) bool {
+//@ 	r, ok := futOver1(t, early, func(a Future[T]) Future[error] { return a.Failed() })
+//@ 	if !ok {
+//@ 		return false
+//@ 	}
+//@ 	if t.IsSuccess() {
+//@ 		return futDecided(r, Failure[error](ErrFutureNotFailed), again)
+//@ 	}
+//@ 	return futDecided(r, Success(t.Failed().Get()), again)
+//@ }
+//@ end
+//
+//@ lemma futureValue[T any](t Try[T], other Try[T])
+//@   prop C06
+//@   ensures futValueScenario(t, other)
+//
+//@ lemma futureOnComplete[T any](t Try[T], cb1 func(Try[T]), cb2 func(Try[T]), other Try[T])
+//@   prop C06
+//@   ensures futOnCompleteScenario(t, cb1, cb2, true, other)
+//@   tag bothRegisteredBeforeCompletion
+//@   ensures futOnCompleteScenario(t, cb1, cb2, false, other)
+//@   tag oneBeforeOneAfterCompletion
+//
+//@ lemma futureOnSuccessOnFailure[T any](t Try[T], cs func(T), cf func(error), early bool, other Try[T])
+//@   prop C06
+//@   ensures futFilterScenario(t, cs, cf, 0, early, other)
+//@   tag OnSuccess
+//@   ensures futFilterScenario(t, cs, cf, 1, early, other)
+//@   tag Foreach
+//@   ensures futFilterScenario(t, cs, cf, 2, early, other)
+//@   tag OnFailure
+//
+//@ lemma futureMethodMap[T any](t Try[T], mf func(T) T, early bool, again Try[T])
+//@   prop C06 C02
+//@   ensures futMapScenario(t, mf, early, again)
+//
+//@ lemma futureMethodFlatMap[T any](t Try[T], tu Try[T], k func(T) int, again Try[T])
+//@   prop C06 C02
+//@   ensures futFlatMapScenario(t, tu, k, 0, again)
+//@   tag bothCompleteBeforeCall
+//@   ensures futFlatMapScenario(t, tu, k, 1, again)
+//@   tag innerFirst
+//@   ensures futFlatMapScenario(t, tu, k, 2, again)
+//@   tag outerFirst
+//
+//@ lemma futureRecover[T any](t Try[T], f func(error) T, early bool, again Try[T])
+//@   prop C06
+//@   ensures futRecoverScenario(t, f, early, again)
+//
+//@ lemma futureRecoverCase[T any](t Try[T], d func(error) bool, th func(error) T, early bool, again Try[T])
+//@   prop C06
+//@   ensures futRecoverCaseScenario(t, d, th, early, again)
+//
+//@ lemma futureRecoverWith[T any](t Try[T], tu Try[T], k func(error) int, again Try[T])
+//@   prop C06
+//@   ensures futRecoverWithScenario(t, tu, k, 0, again)
+//@   tag bothCompleteBeforeCall
+//@   ensures futRecoverWithScenario(t, tu, k, 1, again)
+//@   tag innerFirst
+//@   ensures futRecoverWithScenario(t, tu, k, 2, again)
+//@   tag outerFirst
+//
+//@ lemma futureRecoverCaseWith[T any](t Try[T], tu Try[T], d func(error) bool, k func(error) int, again Try[T])
+//@   prop C06
+//@   ensures futRecoverCaseWithScenario(t, tu, d, k, 0, again)
+//@   tag bothCompleteBeforeCall
+//@   ensures futRecoverCaseWithScenario(t, tu, d, k, 1, again)
+//@   tag innerFirst
+//@   ensures futRecoverCaseWithScenario(t, tu, d, k, 2, again)
+//@   tag outerFirst
+//
+//@ lemma futureOr[T any](t Try[T], tu Try[T], s func(int) int, again Try[T])
+//@   prop C06
+//@   ensures futOrScenario(t, tu, s, 0, again)
+//@   tag bothCompleteBeforeCall
+//@   ensures futOrScenario(t, tu, s, 1, again)
+//@   tag alternativeFirst
+//@   ensures futOrScenario(t, tu, s, 2, again)
+//@   tag receiverFirst
+//
+//@ lemma futureOrFuture[T any](ta Try[T], tb Try[T], again Try[T])
+//@   prop C06
+//@   ensures futOrFutureScenario(ta, tb, 0, again)
+//@   tag bothCompleteBeforeCall
+//@   ensures futOrFutureScenario(ta, tb, 1, again)
+//@   tag alternativeBeforeCall
+//@   ensures futOrFutureScenario(ta, tb, 2, again)
+//@   tag receiverBeforeCall
+//@   ensures futOrFutureScenario(ta, tb, 3, again)
+//@   tag receiverThenAlternative
+//@   ensures futOrFutureScenario(ta, tb, 4, again)
+//@   tag alternativeThenReceiver
+//
+//@ lemma futureFailed[T any](t Try[T], early bool, again Try[error])
+//@   prop C06
+//@   ensures futFailedScenario(t, early, again)
